@@ -1,3 +1,78 @@
-From ST Require Import Base.Outcome Mem.Heap Mem.Buffer Mem.BufferRun Mem.StringOps.
-Theorem placeholder : True. Proof. exact I. Qed.
-Print Assumptions placeholder.
+(* Properties/C04.v — C04: ST::string has value semantics: reads never mutate, results never alias.
+   ST::string is one ST::char_buffer; every string operation is a macro over the buffer members
+   (Mem/StringOps.v, read off include/st_string.h) whose computed VALUE `v` is arbitrary here — the
+   statements below hold for every v, so they cover every present and future operation with one of
+   these footprints.  Statements only; proofs in Mem/StringProofs.v, Mem/BufferHistory.v.          *)
+From Coq Require Import NArith List Lia.
+From ST Require Import Base.Outcome Mem.Heap Mem.Buffer Mem.BufferRun Mem.BufferInv Mem.BufferSteps
+  Mem.BufferHistory Mem.StringOps Mem.StringProofs Gen.Consts.
+Import ListNotations.
+
+(* a const member / free function (observer, or any operation producing a new string by NRVO, through a
+   moved temporary buffer, through the validating constructor, as a copy, or empty) leaves the source's
+   bytes, size and data pointer unchanged — whatever value it computes *)
+Theorem c04_const_frame : forall L, 1 <= L -> forall st s t src r,
+  Inv L st -> Rel st s -> top_wf s t -> is_const t = true -> source_of t = Some src -> objs st src = Some r ->
+  exists st', run_top L t st = (Ok tt, st') /\ Inv L st' /\ objs st' src = Some r /\ contents st' r = contents st r.
+Proof. exact const_frame. Qed.
+Print Assumptions c04_const_frame.
+
+(* every operation that does not throw: returns normally, re-establishes the ownership invariant (so the
+   result owns its own storage: see c04_results_never_alias), changes the abstract values as the spec
+   says, and leaves the record (data pointer, size, in-object bytes) AND the contents of every object it
+   does not name untouched: a string's value changes only through an operation applied to that object *)
+Theorem c04_only_named_objects_change : forall L, 1 <= L -> forall st s t,
+  Inv L st -> Rel st s -> top_wf s t -> snd (expand t) = None ->
+  exists st', run_top L t st = (Ok tt, st') /\ Inv L st' /\ Rel st' (spec_top s t) /\
+    (forall x r, user_slot x -> ~ In x (touched t) -> objs st x = Some r ->
+                 objs st' x = Some r /\ contents st' r = contents st r).
+Proof. exact top_ok. Qed.
+Print Assumptions c04_only_named_objects_change.
+
+(* in any state satisfying the invariant no two live objects share storage *)
+Theorem c04_results_never_alias : forall L st pool, Inv L st -> shares st pool = false.
+Proof. exact no_sharing. Qed.
+Print Assumptions c04_results_never_alias.
+
+(* copies are independent deep copies: after a copy, any operation on the copy (or its destruction)
+   leaves the source's record and contents unchanged, and vice versa *)
+Theorem c04_copy_independent : forall L, 1 <= L -> forall st s o src op,
+  Inv L st -> Rel st s -> objs st o = None -> objs st src <> None ->
+  wf_sop (spec_bop s (BCopy o src)) op -> ~ In src (targets op) ->
+  exists st1 st2, ctor_copy L o src st = (Ok tt, st1) /\ run_bop L op st1 = (Ok tt, st2) /\ Inv L st2 /\
+    objs st1 src = objs st src /\ objs st2 src = objs st src /\
+    (forall r, objs st src = Some r -> contents st1 r = contents st r /\ contents st2 r = contents st r) /\
+    (forall r l, objs st src = Some r -> s src = Some (Val l) -> contents st2 r = l).
+Proof. exact copy_independent. Qed.
+Print Assumptions c04_copy_independent.
+
+Theorem c04_copy_independent_rev : forall L, 1 <= L -> forall st s o src op,
+  Inv L st -> Rel st s -> objs st o = None -> objs st src <> None ->
+  wf_sop (spec_bop s (BCopy o src)) op -> ~ In o (targets op) ->
+  exists st1 st2 rc, ctor_copy L o src st = (Ok tt, st1) /\ run_bop L op st1 = (Ok tt, st2) /\ Inv L st2 /\
+    objs st1 o = Some rc /\ objs st2 o = Some rc /\
+    (forall r, objs st src = Some r -> contents st1 rc = contents st r /\ contents st2 rc = contents st r) /\
+    (forall l, s src = Some (Val l) -> contents st2 rc = l).
+Proof. exact copy_independent_rev. Qed.
+Print Assumptions c04_copy_independent_rev.
+
+(* every finite sequence of string operations (throwing ones included) from any good state *)
+Theorem c04_all_sequences : forall L, 1 <= L -> forall ts st s,
+  Inv L st -> Rel st s -> wf_tops s ts ->
+  fst (run_tops L ts st) = map expected_result ts /\
+  Inv L (snd (run_tops L ts st)) /\ Rel (snd (run_tops L ts st)) (fold_left spec_top ts s).
+Proof. exact tops_ok. Qed.
+Print Assumptions c04_all_sequences.
+
+(* non-vacuity: self-referential calls (s = s, s += s, s.replace(s, s)) and whole-string results satisfy
+   the preconditions; the model computes what the spec says *)
+Example c04_nonvacuous :
+  let abc := [97; 98; 99]%N in
+  let long := repeat 120%N 20 in
+  let ts := [TNew 0 abc; TNew 1 long; TAssign 0 0; TAppend 0 0 (abc ++ abc); TFreshMoveAsg 2 0 (abc ++ abc);
+             TCopyOf 3 1; TReads 1; TSetBytes 3 abc; TMoveAssign 1 3; TDel 3; TFreshNRVO 3 1 [98%N]; TDel 0; TDel 1; TDel 2; TDel 3] in
+  wf_tops sstore0 ts /\ fst (run_tops 16 ts store0) = map expected_result ts.
+Proof.
+  vm_compute. repeat split; try discriminate; try reflexivity; intros; try lia;
+  repeat match goal with k : nat |- _ => destruct k; try reflexivity; try lia end.
+Qed.
